@@ -443,3 +443,10 @@ s("C20", "cover-keeps-column", FM, "        ret = ret.drop(columns=[col]).reset_
 s("C20", "columns-not-reset", INJ, "        if isinstance(data, np.ndarray):\n            self._columns = None\n            column_idxs = columns", "        if isinstance(data, np.ndarray):\n            column_idxs = columns", "LIVE")
 b(["C20"], "shift-plain-add", FM, "        ret[from_index:to_index, col] = np.add(\n            ret[from_index:to_index, col], self._delta\n        )", "        ret[from_index:to_index, col] = ret[from_index:to_index, col] + self._delta")
 b(["C20"], "window-mask-flip", LM, "        class_idx = class_idx[(class_idx < to_index) & (class_idx >= from_index)]", "        class_idx = class_idx[(class_idx >= from_index) & (to_index > class_idx)]")
+
+# ---------------------------------------------------------------- C17: order statistic instead of np.quantile (found by two independent seeds)
+_KQ_OLD = '        critical_distances = [scipy.stats.entropy(a, b) for a, b in b_dist_pairs]\n        return np.quantile(critical_distances, 1 - self.alpha, method="nearest")'
+s("C17", "kdq-order-statistic-wraps", DD + "kdq_tree.py", _KQ_OLD,
+  '        critical_distances = np.sort([scipy.stats.entropy(a, b) for a, b in b_dist_pairs])\n        return critical_distances[-int(self.alpha * len(critical_distances))]', "POL")
+b(["C17"], "kdq-order-statistic-clamped", DD + "kdq_tree.py", _KQ_OLD,
+  '        critical_distances = np.sort([scipy.stats.entropy(a, b) for a, b in b_dist_pairs])\n        return critical_distances[-max(1, int(self.alpha * len(critical_distances)))]')
